@@ -101,6 +101,7 @@ func (ps *PrintState) Println(str ...string) *PrintState {
 	ps.Print(str...)
 	if !ps.Compact {
 		_, _ = ps.Out.Write([]byte{'\n'})
+		ps.last = "\n"
 	}
 	ps.IndentationDone = false
 	return ps
@@ -119,8 +120,10 @@ func (ps *PrintState) Print(str ...string) *PrintState {
 			ps.stmtStart = false
 			_, _ = ps.Out.Write([]byte(ps.separator(s[0])))
 		}
-		if ps.Compact && glued(ps.last, s) {
-			_, _ = ps.Out.Write([]byte{' '}) // a - -b must not become a--b (nor a + +b a++b).
+		if glued(ps.last, s) {
+			// a - -b must not become a--b (nor a + +b a++b) in compact mode; in both modes the operand of a prefix minus
+			// can be the literal -9223372036854775808, one token that starts with a sign: - -9223372036854775808.
+			_, _ = ps.Out.Write([]byte{' '})
 		}
 		_, _ = ps.Out.Write([]byte(s))
 		ps.last = s
@@ -253,6 +256,7 @@ func prettyPrintLongForm(ps *PrintState, s Node, i int) {
 		if !needNewLineAfter(ps.prev) || (keepSameLineAsPrevious(s) && !isLineComment(ps.prev)) {
 			log.Debugf("=> PrettyPrint adding just a space")
 			_, _ = ps.Out.Write([]byte{' '})
+			ps.last = " "
 			ps.IndentationDone = true
 		} else {
 			log.Debugf("=> PrettyPrint adding newline")
